@@ -32,6 +32,11 @@ def families(quick):
         if not quick:
             F[f"cells3_{closed}"] = sky.SkyConfig(nref=3, nunk=2, slots="{1, 3, 6, 8}", zcells="0..6", weights="{1}", closed=closed,
                                                   rmin=(2.5,), rmax=(22.5,))
+    # many bins (more than 255): bin indices must not wrap or saturate; cells around bins 255/256/257 and the last bin
+    edges = tuple(round(0.01 + 0.01 * k, 2) for k in range(301))
+    for closed in ("right", "left"):
+        F[f"many_bins_{closed}"] = sky.SkyConfig(nref=2, nunk=2, slots="{1, 8}", zcells="{2, 510, 512, 513, 514, 600, 601, 602}", weights="{1}",
+                                                 closed=closed, edges=edges, rmin=(2.5,), rmax=(22.5,), print_every=2)
     return F
 
 
@@ -61,7 +66,8 @@ def run(ctx) -> None:
         n = 0
         for sc in F.values():
             sc.derive()
-        outs = sky.model_check_many(ctx, [(f"Sky ideal, family {fam}", sc, ["TotalsAgree", "MetaDescribesPatch"], {}) for fam, sc in F.items()])
+        outs = sky.model_check_many(ctx, [(f"Sky ideal, family {fam}", sc, ["MetaDescribesPatch"] if fam.startswith("many_bins") else ["TotalsAgree", "MetaDescribesPatch"], {})
+                                          for fam, sc in F.items()])     # (TotalsAgree recurses over bins x patches^2: too deep for 300 bins)
         jobs = []
         for (fam, sc), (res, scen) in zip(F.items(), outs):
             ctx.require(res.ok, f"Sky ideal ({fam}) violated: {res.error_name}")
